@@ -15,6 +15,7 @@ EXPLANATION = (
     "(descending indices, iteration over a copy, or rebuild by filtering) with no early exit; R3 the not-open test raises before "
     "anything is built or queued and send() delegates to send_with_header; R4 expired entries are never written (C02.R2 re-used); R5 close() marks the socket not open before its first await, so a send racing with close() is refused and holds nothing (C15.R1/R2 re-used)."
     ' Rounds 7-8: R3 also: nothing is awaited between the is_open test and the enqueue.'
+    ' Rounds 9-10: R1 also: the pending queue is a plain deque with no maxlen (nothing is discarded silently).'
 )
 ASSUMPTIONS = ["deque deletion by index shifts later elements down (why ascending-index deletion is refuted)"]
 FLOORS = {"C16.R1": 4, "C16.R2": 1, "C16.R3": 3, "C16.R4": 1, "C16.R5": 1, "C16.R6": 1}
